@@ -1,4 +1,4 @@
-(* Case runner for C16: <text hex> TAB <mode>; the model parses the rule text itself. *)
+(* Case runner for C16: <text hex> TAB <mode> [TAB <second rule hex>]; the model parses the rule texts itself. *)
 From Coq Require Import List NArith ZArith Bool.
 From UF Require Import Base.Lit Base.Bytes Base.Codec Model.Options Model.NetRule Model.Result Run.Common.
 Import ListNotations.
@@ -11,6 +11,15 @@ Definition run_case (line : bytes) : bytes :=
        | None => $"BADCASE"
        | Some text =>
          show_res (fun r =>
+           if bytes_eqb mode $"pair" then
+             (* two rules matching the request, in this order: the priority order selects the verdict *)
+             match hex_decode (nth_field fs 2) with
+             | None => $"BADCASE"
+             | Some text2 =>
+               show_res (fun r2 => dec_of_N (result_cosmetic_option (new_matching_result [r; r2] [])))
+                        (new_network_rule text2 1%Z)
+             end
+           else
            (* the rule is the only match, so it is the basic rule of the result *)
            dec_of_N (result_cosmetic_option (new_matching_result [r] [])))
            (new_network_rule text 1%Z)
